@@ -1,7 +1,8 @@
 """C24 — electron energy relations match relativistic kinematics.
 
 Space: every energy on the grid {1..9} x 10^k eV (k = 0..6) and 10 MeV (thorough: also every integer keV 1..1000), the
-neighbours E(1 +- 1e-6) of each, 8 reciprocal samplings; non-positive energies {0, -1, -1e5} through every entry
+neighbours E(1 +- 1e-6) of each, 8 reciprocal samplings; every integer-valued grid energy additionally in 7 numeric
+representations (python int, float32, int32, int64, uint32, 0-d int32 / float64 arrays: a fixed-width integer must not wrap); non-positive energies {0, -1, -1e5} through every entry
 point.  Oracle: reference formulas with CODATA-2018 constants typed in here (not ase's): lambda = h c / sqrt(E(E+2mc^2)),
 sigma = 2 pi m gamma e lambda / h^2, angular = reciprocal * lambda * 1e3; positivity; strict decrease between consecutive
 energies; rejection of non-positive energies.
@@ -47,13 +48,32 @@ def energies(quick):
     return sorted(set(es))
 
 
+REPS = ["int", "float32", "int32", "int64", "uint32", "array0d-int32", "array0d-float64"]
+
+
+def as_rep(e, rep):
+    import numpy as np
+
+    if rep is None:
+        return e
+    if rep == "int":
+        return int(e)
+    if rep.startswith("array0d-"):
+        return np.array(e, dtype=rep.split("-")[1])
+    return getattr(np, rep)(e)
+
+
 def check(ctx):
     es = energies(ctx.quick)
     ctx.workers = 4
     cases = [{"kind": "value", "e": e} for e in es]
+    # the same energies in every numeric representation a caller can hold them in (file metadata, array elements ...)
+    cases += [{"kind": "value", "e": e, "rep": r} for e in es for r in REPS if float(e).is_integer()]
+    cases += [{"kind": "pair", "lo": e, "hi": e + 1, "rep": r} for e in es for r in ("int32", "int64", "int") if float(e).is_integer()]
     cases += [{"kind": "pair", "lo": a, "hi": b} for a, b in zip(es[:-1], es[1:])]
     cases += [{"kind": "pair", "lo": e * (1 - 1e-6), "hi": e} for e in es] + [{"kind": "pair", "lo": e, "hi": e * (1 + 1e-6)} for e in es]
     cases += [{"kind": "reject", "e": e} for e in (0, 0.0, -1, -1.0, -1e5)]
+    cases += [{"kind": "reject", "e": e, "rep": r} for e in (0, -1, -100000) for r in ("float32", "int32", "int64", "array0d-int32")]
     ctx.run(cases, "run_case", batch=50, rule="every grid energy (value checks incl. 8 samplings), every consecutive / 1e-6-neighbour "
             "pair (strict decrease), every non-positive energy x 6 entry points; all non-trivial")
 
@@ -71,30 +91,34 @@ def run_case(case):
         if not r <= RTOL:
             viol.append({"key": key, "msg": "%s: got %r, reference %r (rel %.3g)" % (what, got, ref, r)})
 
+    rep = case.get("rep")
     if case["kind"] == "value":
-        e = case["e"]
+        e = as_rep(case["e"], rep)
         lam = EN.energy2wavelength(e)
         sig = EN.energy2sigma(e)
-        cmp("wavelength/formula", lam, ref_wavelength(e), "energy2wavelength(%r)" % e)
-        cmp("sigma/formula", sig, ref_sigma(e), "energy2sigma(%r)" % e)
-        cmp("gamma/formula", EN.relativistic_mass_correction(e), ref_gamma(e), "relativistic_mass_correction(%r)" % e)
-        cmp("mass/formula", EN.energy2mass(e), ref_gamma(e) * ME, "energy2mass(%r)" % e)
+        what = repr(e) if rep is None else "%s(%r)" % (rep, case["e"])
+        k = "" if rep is None else "/rep"
+        e0, e = e, float(case["e"])  # the reference is always evaluated on the float64 value
+        cmp("wavelength/formula" + k, lam, ref_wavelength(e), "energy2wavelength(%s)" % what)
+        cmp("sigma/formula" + k, sig, ref_sigma(e), "energy2sigma(%s)" % what)
+        cmp("gamma/formula" + k, float(EN.relativistic_mass_correction(e0)), ref_gamma(e), "relativistic_mass_correction(%s)" % what)
+        cmp("mass/formula" + k, float(EN.energy2mass(e0)), ref_gamma(e) * ME, "energy2mass(%s)" % what)
         if not (lam > 0 and sig > 0):
             viol.append({"key": "positivity", "msg": "wavelength %r sigma %r at %r eV" % (lam, sig, e)})
-        ang = EN.reciprocal_space_sampling_to_angular_sampling(tuple(SAMPLINGS), e)
+        ang = EN.reciprocal_space_sampling_to_angular_sampling(tuple(SAMPLINGS), e0)
         for s, a in zip(SAMPLINGS, ang):
-            cmp("angular-sampling/formula", a, s * ref_wavelength(e) * 1e3, "angular sampling of %r 1/A at %r eV" % (s, e))
-        acc = EN.Accelerator(energy=e)
-        cmp("accelerator/wavelength", acc.wavelength, ref_wavelength(e), "Accelerator(%r).wavelength" % e)
-        cmp("accelerator/sigma", acc.sigma, ref_sigma(e), "Accelerator(%r).sigma" % e)
+            cmp("angular-sampling/formula" + k, a, s * ref_wavelength(e) * 1e3, "angular sampling of %r 1/A at %s eV" % (s, what))
+        acc = EN.Accelerator(energy=e0)
+        cmp("accelerator/wavelength" + k, acc.wavelength, ref_wavelength(e), "Accelerator(%s).wavelength" % what)
+        cmp("accelerator/sigma" + k, acc.sigma, ref_sigma(e), "Accelerator(%s).sigma" % what)
         return {"viol": viol, "obs": "%.9g" % lam, "tr": 8, "err": worst}
     if case["kind"] == "pair":
-        lo, hi = case["lo"], case["hi"]
+        lo, hi = as_rep(case["lo"], rep), as_rep(case["hi"], rep)
         a, b = EN.energy2wavelength(lo), EN.energy2wavelength(hi)
         if not a > b:
             viol.append({"key": "wavelength/not-decreasing", "msg": "lambda(%r)=%r <= lambda(%r)=%r" % (lo, a, hi, b)})
         return {"viol": viol, "obs": "%.6g" % (a / b), "tr": 2}
-    e = case["e"]
+    e = as_rep(case["e"], rep)
     entry = {
         "energy2wavelength": lambda: EN.energy2wavelength(e),
         "energy2sigma": lambda: EN.energy2sigma(e),
